@@ -29,6 +29,9 @@ impl Name {
     }
 
     fn check_sorted_and_unique_name_records(&self, ctx: &mut ValidationCtx) {
+        // a custom validation method replaces the generated recursion into the
+        // records, so validate them (their string data) here.
+        self.name_record.validate_impl(ctx);
         //TODO: replace with `is_sorted` whenever oss_fuzz is using rustc >= 1.82
         if self
             .name_record
